@@ -54,3 +54,42 @@ pub fn random_dup_history(rng: &mut ChaCha8Rng, k: i32, len: usize) -> Vec<Op> {
     }
     ops
 }
+
+/// Structured graphs on which Louvain goes through several aggregation levels:
+/// paths, cycles, rings of cliques, barbells, grids; undirected and directed; 8-40 nodes.
+pub fn structured_cases(rng: &mut ChaCha8Rng, count: usize) -> Vec<Value> {
+    let mut out = vec![];
+    let sizes = [8, 12, 16, 24, 30, 40];
+    let mut i = 0;
+    while out.len() < count {
+        let n = sizes[i % sizes.len()];
+        let directed = (i / sizes.len()) % 2 == 1;
+        let kind = (i / (2 * sizes.len())) % 4;
+        let mut es: Vec<(i32, i32)> = vec![];
+        match kind {
+            0 => { for a in 1..n { es.push((a, a + 1)); } }
+            1 => { for a in 1..=n { es.push((a, a % n + 1)); } }
+            2 => {
+                // ring of cliques of size 4
+                let k = n / 4;
+                for c in 0..k {
+                    for a in 0..4 { for b in (a + 1)..4 { es.push((c * 4 + a + 1, c * 4 + b + 1)); } }
+                    es.push((c * 4 + 4, ((c + 1) % k) * 4 + 1));
+                }
+            }
+            _ => {
+                let w = 4;
+                for a in 1..=n { if a % w != 0 && a + 1 <= n { es.push((a, a + 1)); } if a + w <= n { es.push((a, a + w)); } }
+            }
+        }
+        let specs = SpecsJ { directed, multi: false, loops: false, dedupe: 2, missing: 0, loopfalse: 1 };
+        let mut names: Vec<i32> = (1..=n).collect();
+        names.shuffle(rng);
+        let w = if i % 3 == 0 { 2 } else { NAN_W };
+        let mut ea: Vec<EdgeArg> = es.into_iter().map(|(u, v)| (u, v, w, 0)).collect();
+        ea.shuffle(rng);
+        out.push(case_json(specs, &[Op::AddNodes(names.into_iter().map(|x| (x, 0)).collect()), Op::AddEdges(ea)], "structured"));
+        i += 1;
+    }
+    out
+}
